@@ -268,6 +268,8 @@ class Ctx:
             d = os.path.join(VERIF, "replays", self.prop)
             os.makedirs(d, exist_ok=True)
             path = os.path.join(d, case_hash([fnname, case, sig]) + ".json")
+            if any(path == l[0] for l in lines):
+                continue
             with open(path, "w") as f:
                 json.dump(rec, f, indent=1, default=_jd)
             lines.append((path, sig, v.get("msg", "")))
